@@ -6,6 +6,8 @@ From ZV Require Import Lib.Base Model.Query Generated.ParserTables Model.Parser 
 From ZV Require Import Proofs.QueryDocTree Proofs.QueryDocParse Proofs.QuerySimplify Proofs.QueryDocSem Proofs.C06Main Proofs.DocTable.
 From ZV Require Model.Regex Proofs.RegexCase.
 From ZV Require Import Model.RegexCase Proofs.C06Case.
+From ZV Require Import Model.RegexLit.
+From ZV Require Proofs.RegexLit.
 From Coq Require Import String.
 Open Scope N_scope.
 
@@ -156,6 +158,44 @@ Theorem C06_negated_class_tree_has_no_upper :
 Proof. split; vm_compute; reflexivity. Qed.
 Print Assumptions C06_negated_class_tree_has_no_upper.
 
+(** ---- "patterns without regex operators behave as literals" (round 3): RegexpQuery's literal detection on the
+    optimized syntax tree ([rq_shape_of], Model/RegexLit.v; the trees are dumped from the implementation and the
+    runner checks the Substring/Regexp decision and the Substring's pattern bytes against them).
+    A Substring atom is produced only for a tree whose matches - in the regexp semantics [Regex.m] of
+    Model/Regex.v, for every simple-fold orbit - are exactly the occurrences of the pattern's runes as written. *)
+Theorem C06_literal_detection_sound :
+  forall (orbit : N -> list N) (r : Regex.re) (rs : list N), rq_shape_of r = ShLit rs ->
+    forall (t : list N) (i j : nat), Regex.m orbit r t i j <-> occurs_at rs t i /\ j = (i + List.length rs)%nat.
+Proof. exact Proofs.RegexLit.literal_detection_sound. Qed.
+Print Assumptions C06_literal_detection_sound.
+
+(** every literal without FoldCase becomes a Substring of its runes; a fold-case literal ([fF], (?i:foo)) stays
+    a regexp since /repo efa35e5 *)
+Theorem C06_literal_detection_complete :
+  forall rs : list N, rq_shape_of (Regex.RLit false rs) = ShLit rs /\ rq_shape_of (Regex.RLit true rs) = ShRx.
+Proof. intros rs. split; reflexivity. Qed.
+Print Assumptions C06_literal_detection_complete.
+
+(** the decision before the repair (r.Op == OpLiteral alone) made [fF] - tree: the fold-case literal F - the
+    Substring "F"; the pattern matches "f", the Substring does not (repaired defect; oracle replay "[mM]") *)
+Theorem C06_old_literal_detection_refuted :
+  forall orbit : N -> list N, In 102 (orbit 70) ->
+    exists (r : Regex.re) (rs t : list N), rq_shape_old r = ShLit rs /\ Regex.m orbit r t 0 1 /\ ~ occurs_at rs t 0.
+Proof. exact Proofs.RegexLit.old_literal_detection_refuted. Qed.
+Print Assumptions C06_old_literal_detection_refuted.
+
+(** case:auto and fold-case literals (known finding auto-case-fold-flag-group-without-upper): regexp/syntax
+    spells a fold-case literal with the UPPER-case rune, and LowerRegexp counts it like any other literal.  The
+    trees of (?i:hel)lo and [hH][eE][lL]lo are the same tree; it has an upper-case letter, so both are searched
+    case-sensitively - the text of the first has none.  As for negated classes the deviation is between pattern
+    text and tree. *)
+Theorem C06_fold_group_tree_has_upper :
+  (forall f rs, re_auto (Regex.RLit f rs) = existsb upper_rune rs) /\
+  re_auto (Regex.RConcat [Regex.RLit true [72; 69; 76]; Regex.RLit false [108; 111]]) = true /\
+  has_upper_re (Regex.RConcat [Regex.RLit true [72; 69; 76]; Regex.RLit false [108; 111]]) = true.
+Proof. split; [exact Proofs.RegexLit.auto_fold_literal | exact Proofs.RegexLit.fold_group_tree_has_upper]. Qed.
+Print Assumptions C06_fold_group_tree_has_upper.
+
 (** ---- non-vacuity: well-formed queries exist, and on them the full statement holds by computation *)
 Definition ex_q1 : dquery :=   (* a ( Foo or -f:"x y" case:yes) or type:repo r:z c:B *)
   [[DText (WPlain (dbs "a"));
@@ -205,3 +245,15 @@ Example ex_q4_full : rx_wf ex_q4 = true /\ rx_parse (render ex_q4) = Ok (Simplif
   Simplify (rx_den ex_q4) = QAnd [QRegexp ex_rx1 true false false; QNot (QRegexp ex_rx2 false false false);
                                   QRegexp ex_rx1 false false false].
 Proof. repeat split; vm_compute; reflexivity. Qed.
+
+(** literal detection: "hello" is a Substring matching exactly its occurrence, hel{2}o (optimized tree: a
+    concatenation) and [hH] (a fold-case literal) are regexps; with the toy orbit h~H the fold literal matches "h" *)
+Example ex_literal_detection :
+  rq_shape_of (Regex.RLit false [104; 101; 108; 108; 111]) = ShLit [104; 101; 108; 108; 111] /\
+  shape_pattern (rq_shape_of (Regex.RLit false [233])) = Some [195; 169] /\
+  rq_shape_of (Regex.RConcat [Regex.RLit false [104; 101]; Regex.RLit false [108]; Regex.RLit false [108]; Regex.RLit false [111]]) = ShRx /\
+  rq_shape_of (Regex.RLit true [72]) = ShRx /\
+  occurs_at [108; 108] [104; 101; 108; 108; 111] 2 /\
+  Regex.m (fun _ => []) (Regex.RLit false [108; 108]) [104; 101; 108; 108; 111] 2 4 /\
+  In 102 ((fun c => if c =? 70 then [102] else []) 70).
+Proof. repeat split; try (vm_compute; reflexivity); try (vm_compute; tauto). apply (Proofs.RegexLit.literal_detection_sound (fun _ => []) (Regex.RLit false [108; 108]) [108; 108] eq_refl). split; reflexivity. Qed.
